@@ -6,8 +6,8 @@ import ast
 
 from ..cfg import build_cfg, calls_in, node_calls
 from ..core import Ctx, property_info, rule, share
-from ..model import AnalysisError, FuncInfo, walk_no_nested
-from ..q import A, MUTATORS, asrc, enum_members, is_self_attr, kwarg, root_name, stores, unparse
+from ..model import AnalysisError, FuncInfo, anon_text, walk_no_nested
+from ..q import Dispatch, L, call_name_of, control_deps, expand_at, flow_conditions, flows, forms, return_values, str_template, template_text, tests_like, A, MUTATORS, asrc, enum_members, is_self_attr, kwarg, root_name, stores, unparse
 
 DM = "xsdata.codegen.mappers.dtd"
 DP = "xsdata.codegen.parsers.dtd"
@@ -42,56 +42,68 @@ property_info(
 # --------------------------------------------------------------------------------------- C16
 
 
-def _enum_chain(fi: FuncInfo, enum_name: str) -> tuple[dict[str, list[ast.stmt]], list[ast.stmt] | None, ast.If | None]:
-    """First if/elif chain in fi whose tests compare something with members of enum_name."""
-    for n in walk_no_nested(fi.node):
-        if isinstance(n, ast.If) and f"{enum_name}." in unparse(n.test):
-            out: dict[str, list[ast.stmt]] = {}
-            chain = n
-            first = n
-            while True:
-                for x in ast.walk(chain.test):
+def _enum_dispatch(fi: FuncInfo, enum_name: str) -> Dispatch:
+    """Partial evaluation of a function over the tests that compare something with a member of ``enum_name`` (key = member name)."""
+    def classify(t: ast.AST):
+        if isinstance(t, ast.Compare) and len(t.ops) == 1:
+            sides = [t.left, t.comparators[0]]
+            op = t.ops[0]
+            if isinstance(op, (ast.Eq, ast.Is, ast.NotEq, ast.IsNot)):
+                for x in sides:
                     if isinstance(x, ast.Attribute) and isinstance(x.value, ast.Name) and x.value.id == enum_name:
-                        out[x.attr] = chain.body
-                if len(chain.orelse) == 1 and isinstance(chain.orelse[0], ast.If) and f"{enum_name}." in unparse(chain.orelse[0].test):
-                    chain = chain.orelse[0]
-                    continue
-                return out, (chain.orelse or None), first
-    return {}, None, None
+                        return frozenset([x.attr]), isinstance(op, (ast.Eq, ast.Is))
+            if isinstance(op, (ast.In, ast.NotIn)) and isinstance(sides[1], (ast.Tuple, ast.List, ast.Set)):
+                ms = [x.attr for x in sides[1].elts if isinstance(x, ast.Attribute) and isinstance(x.value, ast.Name) and x.value.id == enum_name]
+                if ms and len(ms) == len(sides[1].elts):
+                    return frozenset(ms), isinstance(op, ast.In)
+        return None
+
+    return Dispatch(fi.node, classify=classify)
 
 
-def _consts(body: list[ast.stmt]) -> dict[str, str]:
-    out = {}
-    for st in body:
-        for sub in [st, *walk_no_nested(st)]:
-            if isinstance(sub, ast.Assign) and len(sub.targets) == 1:
-                out[unparse(sub.targets[0])] = unparse(sub.value)
+def _effects(nodes) -> list[str]:
+    """Side effects (calls / stores / raises / returns) among CFG nodes, as text - used to tell a handled member from a fall-through."""
+    out = []
+    for n in nodes:
+        if n.kind == "stmt" and n.ast is not None and not isinstance(n.ast, ast.Pass):
+            out.append(unparse(n.ast)[:60])
+    return out
+
+
+def _const_stores(nodes) -> dict[str, set[str]]:
+    out: dict[str, set[str]] = {}
+    for n in nodes:
+        if n.kind == "stmt" and isinstance(n.ast, (ast.Assign, ast.AnnAssign)):
+            tgts = n.ast.targets if isinstance(n.ast, ast.Assign) else [n.ast.target]
+            if n.ast.value is not None:
+                for t in tgts:
+                    out.setdefault(unparse(t), set()).add(unparse(n.ast.value))
     return out
 
 
 @rule("C16.R1")
 def enum_dispatch_totality(ctx: Ctx) -> None:
-    """Every if/elif chain of the DTD mapper over a Dtd* enum handles all members (or has an else for exactly the rest)."""
-    specs = [("build_occurs", "DtdContentOccur", 1, None), ("build_content", "DtdContentType", 1, None), ("build_attribute_restrictions", "DtdAttributeDefault", None, None),
-             ("build_elements", "DtdElementType", 0, {"EMPTY", "UNDEFINED"})]
-    for fn, enum_name, else_rest, partial_ok in specs:
+    """Every dispatch of the DTD mapper over a Dtd* enum handles all members (explicitly, or by a default branch for exactly the rest)."""
+    specs = [("build_occurs", "DtdContentOccur", set()), ("build_content", "DtdContentType", set()), ("build_attribute_restrictions", "DtdAttributeDefault", set()),
+             ("build_elements", "DtdElementType", {"EMPTY", "UNDEFINED"})]
+    for fn, enum_name, contentless in specs:
         fi = ctx.repo.func(f"{DM}:DtdMapper.{fn}")
         members = set(enum_members(ctx.repo.cls(f"xsdata.models.dtd:{enum_name}").node))
-        handled, orelse, first = _enum_chain(fi, enum_name)
-        if first is None:
+        d = _enum_dispatch(fi, enum_name)
+        if not d.keys:
             raise AnalysisError(f"C16.R1: no {enum_name} dispatch in {fn} (anchor vanished)")
-        missing = members - set(handled)
-        if partial_ok is not None:
-            ok = missing == partial_ok and orelse is None
-            why = f"unhandled members {sorted(missing)} (deliberately content-less: {sorted(partial_ok)})"
-        elif fn == "build_attribute_restrictions":
-            # REQUIRED / IMPLIED / FIXED explicit; NONE is split by 'default_value is not None' / else
-            ok = missing == {"NONE"} and orelse is not None
-            why = f"unhandled members {sorted(missing)}"
+        default_nodes = d.specific(None)
+        default_acts = bool(_effects(default_nodes))
+        missing = members - set(d.keys)
+        # a member is handled if it has its own branch, or falls into a default branch that does something
+        unhandled = {m for m in missing if not default_acts}
+        if contentless:
+            ok = unhandled == contentless
+            why = f"unhandled members {sorted(unhandled)} (deliberately content-less: {sorted(contentless)})"
         else:
-            ok = len(missing) == else_rest and (orelse is not None) == (else_rest > 0)
-            why = f"unhandled members {sorted(missing)}, else branch {'present' if orelse else 'absent'}"
-        ctx.ob(f"{fn}: dispatch over {enum_name} is total", ok, at=fi, node=first, construct=f"{fn} dispatch {enum_name}", msg=why)
+            ok = not unhandled and (len(missing) <= 1)
+            why = f"members without their own branch {sorted(missing)}, default branch {'present' if default_acts else 'absent'}"
+        ctx.ob(f"{fn}: dispatch over {enum_name} is total", ok, at=fi, construct=f"{fn} dispatch {enum_name}", msg=why)
     # the parser converts lxml's strings through the enums (a new lxml kind fails loudly instead of being mis-mapped)
     for fn, enums in (("build_element", ["DtdElementType"]), ("build_content", ["DtdContentOccur", "DtdContentType"]), ("build_attribute", ["DtdAttributeType", "DtdAttributeDefault"])):
         fi = ctx.repo.func(f"{DP}:DtdParser.{fn}")
@@ -103,57 +115,95 @@ def enum_dispatch_totality(ctx: Ctx) -> None:
 def occurrence_table(ctx: Ctx) -> None:
     """build_occurs equals the XML 1.0 occurrence table; an OR group adds min_occurs = 0 and a truthy, per-group choice identifier."""
     fi = ctx.repo.func(f"{DM}:DtdMapper.build_occurs")
-    handled, orelse, _ = _enum_chain(fi, "DtdContentOccur")
+    d = _enum_dispatch(fi, "DtdContentOccur")
+    g = d.g
     spec = {"ONCE": ("1", "1"), "OPT": ("0", "1"), "MULT": ("0", "sys.maxsize"), "PLUS": ("1", "sys.maxsize")}
-    got = {k: _consts(v) for k, v in handled.items()}
-    if orelse:
-        rest = set(spec) - set(handled)
-        if len(rest) == 1:
-            got[rest.pop()] = _consts(orelse)
+    rest = set(spec) - set(d.keys)
     for k, (lo, hi) in spec.items():
-        c = got.get(k, {})
-        ctx.ob(f"occurrence {k} -> ({lo}, {hi})", (c.get("min_occurs"), c.get("max_occurs")) == (lo, hi), at=fi, construct=f"occurs {k}", msg=f"mapped to ({c.get('min_occurs')}, {c.get('max_occurs')})")
-    ret = [r for r in walk_no_nested(fi.node) if isinstance(r, ast.Return)]
-    ctx.ob("build_occurs returns {'min_occurs': min_occurs, 'max_occurs': max_occurs}", len(ret) == 1 and A(unparse(ret[0].value)) == A("{'min_occurs': min_occurs, 'max_occurs': max_occurs}"), at=fi, construct="occurs result",
-           msg="result keys swapped or renamed")
+        key = k if k in d.keys else (None if len(rest) == 1 and k in rest else k)
+        under = d.under(key)
+        ids = {n.id for n in under}
+        got: dict[str, set[str]] = {"min_occurs": set(), "max_occurs": set()}
+        for r in [n for n in under if n.kind == "stmt" and isinstance(n.ast, ast.Return) and n.ast.value is not None]:
+            for dct in [x for x in ast.walk(r.ast.value) if isinstance(x, ast.Dict)]:
+                for kk, vv in zip(dct.keys, dct.values):
+                    if isinstance(kk, ast.Constant) and kk.value in got:
+                        for leaf, chain in flows(fi, r, vv):
+                            if all(c.id in ids for c in chain):
+                                got[kk.value].add(unparse(leaf))
+        ctx.ob(f"occurrence {k} -> ({lo}, {hi})", got["min_occurs"] == {lo} and got["max_occurs"] == {hi}, at=fi, construct=f"occurs {k}", msg=f"mapped to ({sorted(got['min_occurs'])}, {sorted(got['max_occurs'])})")
     bc = ctx.repo.func(f"{DM}:DtdMapper.build_content")
-    handled, orelse, _ = _enum_chain(bc, "DtdContentType")
-    body = handled.get("OR", [])
-    upd = [c for st in body for c in calls_in(st) if isinstance(c.func, ast.Attribute) and c.func.attr == "update" and c.args and isinstance(c.args[0], ast.Dict)]
-    d = {unparse(k): v for c in upd for k, v in zip(c.args[0].keys, c.args[0].values)}
-    ok_choice = "'choice'" in d and isinstance(d["'choice'"], ast.Call) and unparse(d["'choice'"].func) == "id"
+    dc = _enum_dispatch(bc, "DtdContentType")
+    or_nodes = dc.specific("OR")
+    entries: dict[str, ast.expr] = {}
+    for n in or_nodes:
+        if n.kind != "stmt" or n.ast is None:
+            continue
+        for c in node_calls(n):
+            if isinstance(c.func, ast.Attribute) and c.func.attr == "update":
+                if c.args and isinstance(c.args[0], ast.Dict):
+                    entries.update({k.value: v for k, v in zip(c.args[0].keys, c.args[0].values) if isinstance(k, ast.Constant)})
+                entries.update({k.arg: k.value for k in c.keywords if k.arg})
+        for st, tgt, v in stores(n.ast) if isinstance(n.ast, ast.stmt) else []:
+            if isinstance(tgt, ast.Subscript) and isinstance(tgt.slice, ast.Constant) and v is not None:
+                entries[tgt.slice.value] = v
+        for dct in [x for x in ast.walk(n.ast) if isinstance(x, ast.Dict)]:
+            entries.update({k.value: v for k, v in zip(dct.keys, dct.values) if isinstance(k, ast.Constant) and k.value in ("choice", "min_occurs") and k.value not in entries})
+    ch = entries.get("choice")
+    ok_choice = isinstance(ch, ast.Call) and unparse(ch.func) == "id" and len(ch.args) == 1
     ctx.ob("an OR group tags its members with choice = id(<the group>) (unique per group and never falsy)", ok_choice, at=bc, construct="choice id",
-           msg=f"choice identifier is {unparse(d["'choice'"]) if "'choice'" in d else None}: a 0 / shared identifier makes CreateCompoundFields skip or merge the group (element order lost)")
-    ctx.ob("an OR group makes its members optional (min_occurs = 0)", "'min_occurs'" in d and unparse(d["'min_occurs'"]) == "0", at=bc, construct="choice optional", msg="choice members required")
-    a = asrc(bc)
-    ctx.ob("outer kwargs (an enclosing choice) override the group's own parameters and are passed down to both subtrees", A("_.update(**_);cls.build_content_tree(_,_,**_)") in a, at=bc, construct="choice nesting", msg="nested groups lose the enclosing choice")
+           msg=f"choice identifier is {unparse(ch) if ch is not None else None}: a 0 / shared identifier makes CreateCompoundFields skip or merge the group (element order lost)")
+    mo = entries.get("min_occurs")
+    ctx.ob("an OR group makes its members optional (min_occurs = 0)", isinstance(mo, ast.Constant) and mo.value == 0, at=bc, construct="choice optional", msg="choice members required")
+    # the enclosing choice (outer **kwargs) overrides the group's own parameters: update(**kwargs) comes after the group's own entries, and the merged dict is passed down
+    upd_kw = [n for n in or_nodes if n.kind == "stmt" and any(isinstance(c.func, ast.Attribute) and c.func.attr == "update" and (any(k.arg is None for k in c.keywords) or (c.args and unparse(c.args[0]) == "kwargs")) for c in node_calls(n))]
+    own = [n for n in or_nodes if n.kind == "stmt" and any(isinstance(x, ast.Constant) and x.value == "choice" for x in ast.walk(n.ast))]
+    down = [n for n in or_nodes if n.kind == "stmt" and any(call_name_of(c) == "build_content_tree" and any(k.arg is None for k in c.keywords) for c in node_calls(n))]
+    ok = bool(upd_kw) and bool(own) and bool(down) and all(u.id in dc.g.reachable([o.id]) for u in upd_kw for o in own) and all(dn.id in dc.g.reachable([u.id]) for dn in down for u in upd_kw)
+    ctx.ob("outer kwargs (an enclosing choice) override the group's own parameters and are passed down to both subtrees", ok, at=bc, construct="choice nesting", msg="nested groups lose the enclosing choice")
     bt = ctx.repo.func(f"{DM}:DtdMapper.build_content_tree")
-    ctx.ob("build_content_tree visits left then right", A("if_.left:;cls.build_content(_,_.left,**_);if_.right:;cls.build_content(_,_.right,**_)") in asrc(bt), at=bt, construct="tree order", msg="child order changed")
+    gt = build_cfg(bt.node)
+    sides = [(n, unparse(c.args[1]) if len(c.args) > 1 else "") for n in gt.stmts() for c in node_calls(n) if call_name_of(c) == "build_content"]
+    left = [n for n, a in sides if a.endswith(".left")]
+    right = [n for n, a in sides if a.endswith(".right")]
+    ok = len(left) == 1 and len(right) == 1 and right[0].id in gt.reachable([left[0].id]) and left[0].id not in gt.reachable([right[0].id])
+    ctx.ob("build_content_tree visits left then right", ok, at=bt, construct="tree order", msg="child order changed")
     be = ctx.repo.func(f"{DM}:DtdMapper.build_element")
-    ctx.ob("each element attr gets a clone of the restrictions and the next index", A("restrictions=_.clone()") in asrc(be) and A("_.index=len(_.attrs);_.attrs.append(_)") in asrc(be), at=be, construct="element attr", msg="restrictions shared / index wrong")
+    clones = [c for c in calls_in(be.node) if call_name_of(c) == "clone"]
+    idx = [v for st, tgt, v in stores(be.node) if isinstance(tgt, ast.Attribute) and tgt.attr == "index" and v is not None]
+    gb = build_cfg(be.node)
+    idx_nodes = [gb.node_of(st) for st, tgt, v in stores(be.node) if isinstance(tgt, ast.Attribute) and tgt.attr == "index"]
+    app = [n for n in gb.stmts() if any(isinstance(c.func, ast.Attribute) and c.func.attr == "append" and unparse(c.func.value).endswith(".attrs") for c in node_calls(n))]
+    ok = bool(clones) and len(idx) == 1 and A(unparse(idx[0])) == A("len(target.attrs)") and bool(app) and all(i is not None and a.id in gb.reachable([i.id]) and i.id not in gb.reachable([a.id]) for i in idx_nodes for a in app)
+    ctx.ob("each element attr gets a clone of the restrictions and the next index (len(target.attrs) before it is appended)", ok, at=be, construct="element attr", msg="restrictions shared / index wrong")
 
 
 @rule("C16.R3")
 def attribute_default_table(ctx: Ctx) -> None:
     """build_attribute_restrictions equals the XML 1.0 attribute-default table."""
     fi = ctx.repo.func(f"{DM}:DtdMapper.build_attribute_restrictions")
-    handled, orelse, first = _enum_chain(fi, "DtdAttributeDefault")
-    got = {k: _consts(v) for k, v in handled.items()}
-    ctx.ob("#REQUIRED -> min_occurs 1", got.get("REQUIRED", {}).get("attr.restrictions.min_occurs") == "1", at=fi, construct="REQUIRED", msg=str(got.get("REQUIRED")))
-    ctx.ob("#IMPLIED -> min_occurs 0", got.get("IMPLIED", {}).get("attr.restrictions.min_occurs") == "0", at=fi, construct="IMPLIED", msg=str(got.get("IMPLIED")))
-    fx = got.get("FIXED", {})
-    ctx.ob("#FIXED -> fixed, required, default = declared value", fx.get("attr.fixed") == "True" and fx.get("attr.default") == "default_value" and fx.get("attr.restrictions.min_occurs") == "1", at=fi, construct="FIXED", msg=str(fx))
-    # declared default (no keyword): default set; otherwise optional
-    g = build_cfg(fi.node)
-    dv = [t for t in g.nodes if t.kind == "test" and A(unparse(t.ast)) == A("default_value is not None")]
-    sets = [g.node_of(st) for st, tgt, v in stores(fi.node) if unparse(tgt) == "attr.default" and unparse(v) == "default_value"]
-    ok = bool(dv) and len(sets) == 2 and any(s is not None and g.only_if(s.id, dv[0].id, True) for s in sets)
+    d = _enum_dispatch(fi, "DtdAttributeDefault")
+    g = d.g
+
+    rq, im, fx = _const_stores(d.under("REQUIRED")), _const_stores(d.under("IMPLIED")), _const_stores(d.under("FIXED"))
+    ctx.ob("#REQUIRED -> min_occurs 1", rq.get("attr.restrictions.min_occurs") == {"1"}, at=fi, construct="REQUIRED", msg=str(rq))
+    ctx.ob("#IMPLIED -> min_occurs 0", im.get("attr.restrictions.min_occurs") == {"0"}, at=fi, construct="IMPLIED", msg=str(im))
+    ctx.ob("#FIXED -> fixed, required, default = declared value", fx.get("attr.fixed") == {"True"} and fx.get("attr.default") == {"default_value"} and fx.get("attr.restrictions.min_occurs") == {"1"}, at=fi, construct="FIXED", msg=str(fx))
+    # no keyword (NONE): a declared default value is materialised and makes the attribute required-with-default; otherwise optional
+    none_nodes = d.under(None) if "NONE" not in d.keys else d.under("NONE")
+    sets = [n for n in none_nodes if n.kind == "stmt" and isinstance(n.ast, ast.Assign) and unparse(n.ast.targets[0]) == "attr.default" and unparse(n.ast.value) == "default_value"]
+    ok = bool(sets) and all(any((t == "_isnotNone" and pol) or (t == "_isNone" and not pol) for t, pol, _ in control_deps(fi, n)) for n in sets)
     ctx.ob("a declared default value is materialised as the attr default", ok, at=fi, construct="declared default", msg="declared defaults dropped")
-    mx = [st for st, tgt, v in stores(fi.node) if unparse(tgt) == "attr.restrictions.max_occurs" and unparse(v) == "1"]
-    ctx.ob("attributes occur at most once", len(mx) == 1 and g.must_pass(g.entry, g.exit, [g.node_of(mx[0]).id]), at=fi, construct="max_occurs 1", msg="max_occurs not 1 on every path")
+    mx = [st for st, tgt, v in stores(fi.node) if unparse(tgt) == "attr.restrictions.max_occurs"]
+    ctx.ob("attributes occur at most once", bool(mx) and all(unparse(v) == "1" for _, t2, v in stores(fi.node) if unparse(t2) == "attr.restrictions.max_occurs") and g.must_pass(g.entry, g.exit, [g.node_of(st).id for st in mx]), at=fi, construct="max_occurs 1", msg="max_occurs not 1 on every path")
     ba = ctx.repo.func(f"{DM}:DtdMapper.build_attribute")
-    ctx.ob("build_attribute passes (attr, attribute.default, attribute.default_value)", A("cls.build_attribute_restrictions(_,_.default,_.default_value)") in asrc(ba), at=ba, construct="restriction args", msg="arguments swapped")
-    ctx.ob("attribute namespace = target.ns_map.get(attribute.prefix)", A("namespace=_.ns_map.get(_.prefix)") in asrc(ba), at=ba, construct="attribute namespace", msg="attribute namespace resolved differently")
+    gba = build_cfg(ba.node)
+    calls = [(n, c) for n in gba.stmts() for c in node_calls(n) if call_name_of(c) == "build_attribute_restrictions"]
+    ok = len(calls) == 1 and len(calls[0][1].args) == 3 and "_.default" in forms(ba, calls[0][0], calls[0][1].args[1]) and "_.default_value" in forms(ba, calls[0][0], calls[0][1].args[2])
+    ctx.ob("build_attribute passes (attr, attribute.default, attribute.default_value)", ok, at=ba, construct="restriction args", msg="arguments swapped")
+    ns = [(gba.node_of(c), kwarg(c, "namespace")) for c in calls_in(ba.node) if kwarg(c, "namespace") is not None]
+    ok = bool(ns) and all(n is not None and "_.ns_map.get(_.prefix)" in forms(ba, n, v) for n, v in ns)
+    ctx.ob("attribute namespace = target.ns_map.get(attribute.prefix)", ok, at=ba, construct="attribute namespace", msg="attribute namespace resolved differently")
 
 
 @rule("C16.R4")
@@ -184,25 +234,47 @@ def xmlns_attributes(ctx: Ctx) -> None:
     """DtdParser.build_ns_map builds a fresh map per element and removes every attribute it turns into a namespace binding."""
     fi = ctx.repo.func(f"{DP}:DtdParser.build_ns_map")
     g = build_cfg(fi.node)
-    init = [(st, v) for st, tgt, v in stores(fi.node) if isinstance(tgt, ast.Name) and tgt.id == "ns_map"]
-    fresh = len(init) == 1 and isinstance(init[0][1], (ast.Dict, ast.DictComp)) or (len(init) == 1 and isinstance(init[0][1], ast.Call) and unparse(init[0][1].func) in ("dict",) or
-                                                                                     (len(init) == 1 and isinstance(init[0][1], ast.Call) and isinstance(init[0][1].func, ast.Attribute) and init[0][1].func.attr == "copy"))
+    rv = [v for v in return_values(fi.node)]
+    ret_names = {r.value.id for r in walk_no_nested(fi.node) if isinstance(r, ast.Return) and isinstance(r.value, ast.Name)}
+    init = [(st, v) for st, tgt, v in stores(fi.node) if isinstance(tgt, ast.Name) and tgt.id in ret_names]
+
+    def _fresh(v):
+        return isinstance(v, (ast.Dict, ast.DictComp)) or (isinstance(v, ast.Call) and (unparse(v.func) == "dict" or (isinstance(v.func, ast.Attribute) and v.func.attr == "copy")))
+
+    fresh = bool(init) and all(_fresh(v) for _, v in init)
     ctx.ob("build_ns_map starts every element from a freshly built dict", fresh, at=fi, node=init[0][0] if init else None, construct="fresh ns_map",
            msg="the map object is shared between elements (and between DTDs): the last xmlns declaration wins for all of them")
-    sets = [(st, tgt) for st, tgt, v in stores(fi.node) if isinstance(tgt, ast.Subscript) and unparse(tgt.value) == "ns_map"]
+    sets = [(st, tgt) for st, tgt, v in stores(fi.node) if isinstance(tgt, ast.Subscript) and isinstance(tgt.value, ast.Name) and tgt.value.id in ret_names]
     ctx.floor("xmlns binding stores", len(sets), 2)
-    for st, tgt in sets:
+    rem = [x for x in g.stmts() if any(isinstance(c.func, ast.Attribute) and c.func.attr == "remove" and unparse(c.func.value) == "attributes" for c in node_calls(x))]
+    loops = [n for n in g.nodes if n.kind == "for"]
+    for i, (st, tgt) in enumerate(sets):
         n = g.node_of(st)
-        rem = [x for x in g.stmts() if any(unparse(c.func) == "attributes.remove" for c in node_calls(x))]
-        # paired in the same branch: a remove is reachable from the store without another store in between, on every path to the loop head
-        ok = any(r.id in [m for m, _ in g.succ[n.id]] for r in rem)
-        ctx.ob(f"ns_map[{unparse(tgt.slice)}] = ... is followed by attributes.remove(attribute)", ok, at=fi, node=st, msg="the xmlns declaration stays in the attribute list and becomes a field")
-    loop = [n for n in g.nodes if n.kind == "for"]
-    ctx.ob("the attribute list is iterated over a copy while it is modified", bool(loop) and unparse(loop[0].ast.iter) in ("attributes.copy()", "list(attributes)", "attributes[:]"), at=fi, construct="iterate copy", msg="removal during iteration skips attributes")
+        # on every path from the binding back to the loop head (or to the exit) the attribute is removed
+        targets = [l.id for l in loops] + [g.exit]
+        ok = n is not None and bool(rem) and all(g.must_pass(n.id, t, [r.id for r in rem]) for t in targets)
+        ctx.ob(f"xmlns binding #{i + 1} ({L(fi, tgt.slice)}) is followed by attributes.remove(attribute)", ok, at=fi, node=st, construct=f"xmlns binding {L(fi, tgt.slice)} removed", msg="the xmlns declaration stays in the attribute list and becomes a field")
+    # the list that is modified in the loop is iterated over a snapshot (copy / list / slice / tuple), never a lazy view of itself
+    def _snapshot(it: ast.expr) -> bool:
+        if isinstance(it, ast.Call) and ((isinstance(it.func, ast.Attribute) and it.func.attr == "copy") or (isinstance(it.func, ast.Name) and it.func.id in ("list", "tuple", "sorted"))):
+            return True
+        if isinstance(it, ast.Subscript) and isinstance(it.slice, ast.Slice):
+            return True
+        return isinstance(it, (ast.ListComp, ast.List, ast.Tuple))
+
+    its = [expand_at(fi, l, l.ast.iter) for l in loops if l.ast is not None]
+    ctx.ob("the attribute list is iterated over a copy while it is modified", bool(its) and all(_snapshot(it) for it in its), at=fi, construct="iterate copy", msg="removal during iteration skips attributes")
     be = ctx.repo.func(f"{DP}:DtdParser.build_element")
-    ctx.ob("build_element computes ns_map from the element's own prefix and attributes", A("_=cls.build_ns_map(_.prefix,_)") in asrc(be) and A("ns_map=_") in asrc(be), at=be, construct="element ns_map", msg="ns_map computed from other inputs")
+    gbe = build_cfg(be.node)
+    kws = [(gbe.node_of(c), kwarg(c, "ns_map")) for c in calls_in(be.node) if kwarg(c, "ns_map") is not None]
+    ok = bool(kws) and all(n is not None and any(f.startswith("cls.build_ns_map(_.prefix,") for f in forms(be, n, v)) for n, v in kws)
+    ctx.ob("build_element computes ns_map from the element's own prefix and attributes", ok, at=be, construct="element ns_map", msg="ns_map computed from other inputs")
     q = ctx.repo.cls("xsdata.models.dtd:DtdElement").methods["qname"]
-    ctx.ob("DtdElement.qname = build_qname(ns_map.get(prefix), name)", A("_=self.ns_map.get(self.prefix);returnbuild_qname(_,self.name)") in asrc(q), at=q, construct="element qname", msg="element namespace resolved differently")
+    gq = build_cfg(q.node)
+    rets = gq.returns()
+    ok = bool(rets) and all(isinstance(r.ast.value, ast.Call) and call_name_of(r.ast.value) == "build_qname" and len(r.ast.value.args) == 2 and "self.ns_map.get(self.prefix)" in forms(q, r, r.ast.value.args[0])
+                            and unparse(r.ast.value.args[1]) == "self.name" for r in rets)
+    ctx.ob("DtdElement.qname = build_qname(ns_map.get(prefix), name)", ok, at=q, construct="element qname", msg="element namespace resolved differently")
 
 
 # --------------------------------------------------------------------------------------- C17
@@ -212,18 +284,24 @@ def xmlns_attributes(ctx: Ctx) -> None:
 def send_wiring(ctx: Ctx) -> None:
     """Client.send posts exactly prepare_payload(obj) with prepare_headers(...) to config.location and parses the response into config.output."""
     fi = ctx.repo.func(f"{CL}:Client.send")
-    a = asrc(fi)
-    ctx.ob("data = self.prepare_payload(obj)", A("_=self.prepare_payload(_)") in a, at=fi, construct="payload prepared", msg="payload not prepared from the request object")
-    ctx.ob("headers = self.prepare_headers(headers or {})", A("_=self.prepare_headers(_or{})") in a, at=fi, construct="headers prepared", msg="headers not prepared")
-    posts = [c for c in calls_in(fi.node) if unparse(c.func) == "self.transport.post"]
-    ok = len(posts) == 1 and [unparse(x) for x in posts[0].args] == ["self.config.location"] and unparse(kwarg(posts[0], "data") or ast.Constant(0)) == "data" and unparse(kwarg(posts[0], "headers") or ast.Constant(0)) == "headers"
-    ctx.ob("transport.post(config.location, data=<prepared payload>, headers=<prepared headers>)", ok, at=fi, node=posts[0] if posts else None, construct="post wiring", msg="posts something else than the prepared payload/headers")
-    # data / headers are not reassigned between preparation and the post
-    for name, prep in (("data", "prepare_payload"), ("headers", "prepare_headers")):
-        sts = [st for st, tgt, v in stores(fi.node) if isinstance(tgt, ast.Name) and tgt.id == name]
-        ctx.ob(f"`{name}` is assigned once, from {prep}()", len(sts) == 1 and prep in unparse(sts[0].value), at=fi, construct=f"{name} single assignment", msg=f"{name} modified after preparation")
-    ret = [r for r in walk_no_nested(fi.node) if isinstance(r, ast.Return)]
-    ctx.ob("returns parser.from_bytes(<response>, config.output)", len(ret) == 1 and A(anon(fi, ret[0].value)) == A("self.parser.from_bytes(_, self.config.output)"), at=fi, construct="response parsing", msg="response parsed into another class")
+    g = build_cfg(fi.node)
+    posts = [(n, c) for n in g.stmts() for c in node_calls(n) if unparse(c.func) == "self.transport.post"]
+    ok = len(posts) == 1
+    data_leaves = hdr_leaves = []
+    if ok:
+        n, c = posts[0]
+        ok = [unparse(x) for x in c.args] == ["self.config.location"]
+        data_leaves = [leaf for leaf, _ in flows(fi, n, kwarg(c, "data"))] if kwarg(c, "data") is not None else []
+        hdr_leaves = [leaf for leaf, _ in flows(fi, n, kwarg(c, "headers"))] if kwarg(c, "headers") is not None else []
+    pay = bool(data_leaves) and all(isinstance(x, ast.Call) and unparse(x.func) == "self.prepare_payload" and [unparse(a) for a in x.args] == ["obj"] for x in data_leaves)
+    hdr = bool(hdr_leaves) and all(isinstance(x, ast.Call) and unparse(x.func) == "self.prepare_headers" and len(x.args) == 1 and any(isinstance(y, ast.Name) and y.id == "headers" for y in ast.walk(x.args[0])) for x in hdr_leaves)
+    ctx.ob("the posted data is exactly self.prepare_payload(obj)", pay, at=fi, construct="payload prepared", msg="payload not prepared from the request object (or modified after preparation)")
+    ctx.ob("the posted headers are exactly self.prepare_headers(<caller headers or {}>)", hdr, at=fi, construct="headers prepared", msg="headers not prepared (or modified after preparation)")
+    ctx.ob("transport.post(config.location, data=<prepared payload>, headers=<prepared headers>)", ok and pay and hdr, at=fi, node=posts[0][1] if posts else None, construct="post wiring", msg="posts something else than the prepared payload/headers")
+    rv = [(r, leaf) for r in g.returns() for leaf, _ in flows(fi, r, r.ast.value)]
+    okr = bool(rv) and all(isinstance(v, ast.Call) and unparse(v.func) == "self.parser.from_bytes" and len(v.args) == 2 and unparse(v.args[1]) == "self.config.output"
+                           and all(isinstance(x, ast.Call) and unparse(x.func) == "self.transport.post" for x, _ in flows(fi, r, v.args[0])) for r, v in rv)
+    ctx.ob("returns parser.from_bytes(<response of the post>, config.output)", okr, at=fi, construct="response parsing", msg="response parsed into another class")
 
 
 def anon(fi: FuncInfo, node: ast.AST) -> str:
@@ -237,21 +315,33 @@ def header_table(ctx: Ctx) -> None:
     """prepare_headers copies the caller's headers, sets content-type and (if configured) SOAPAction for the SOAP transport, else raises."""
     fi = ctx.repo.func(f"{CL}:Client.prepare_headers")
     g = build_cfg(fi.node)
-    res = [(st, v) for st, tgt, v in stores(fi.node) if isinstance(tgt, ast.Name) and v is not None and (unparse(v) in ("headers.copy()", "dict(headers)", "{**headers}"))]
-    ctx.ob("the result starts as a copy of the caller's headers", len(res) == 1, at=fi, construct="headers copied", msg="the caller's dict is written into and returned: headers of one call leak into the next")
-    name = unparse(res[0][0].targets[0]) if res else "result"
-    bad = [unparse(tgt) for st, tgt, v in stores(fi.node) if isinstance(tgt, ast.Subscript) and root_name(tgt) == "headers"]
-    ctx.ob("the caller's headers dict is never written", not bad, at=fi, construct="caller headers untouched", msg=f"writes {bad}")
-    tt = [t for t in g.nodes if t.kind == "test" and A(unparse(t.ast)) == A("self.config.transport == TransportTypes.SOAP")]
-    ct = [g.node_of(st) for st, tgt, v in stores(fi.node) if isinstance(tgt, ast.Subscript) and unparse(tgt.slice) == "'content-type'" and unparse(v) == "'text/xml'" and root_name(tgt) == name]
-    sa = [g.node_of(st) for st, tgt, v in stores(fi.node) if isinstance(tgt, ast.Subscript) and unparse(tgt.slice) == "'SOAPAction'" and unparse(v) == "self.config.soap_action" and root_name(tgt) == name]
-    at_ = [t for t in g.nodes if t.kind == "test" and unparse(t.ast) == "self.config.soap_action"]
-    ctx.ob("SOAP transport: content-type text/xml", bool(tt) and len(ct) == 1 and g.only_if(ct[0].id, tt[0].id, True), at=fi, construct="content-type", msg="content-type header missing/other")
-    ctx.ob("SOAPAction = config.soap_action exactly when one is configured", bool(at_) and len(sa) == 1 and g.only_if(sa[0].id, at_[0].id, True) and g.only_if(sa[0].id, tt[0].id, True), at=fi, construct="SOAPAction", msg="SOAPAction header wiring changed")
-    rs = [n for n in g.stmts() if isinstance(n.ast, ast.Raise) and "ClientValueError" in unparse(n.ast)]
-    ctx.ob("other transports raise ClientValueError", bool(tt) and len(rs) == 1 and g.only_if(rs[0].id, tt[0].id, False), at=fi, construct="unsupported transport", msg="unsupported transports accepted")
     rets = g.returns()
-    ctx.ob("returns the copy", len(rets) == 1 and unparse(rets[0].ast.value) == name, at=fi, construct="returns copy", msg="returns another dict")
+    ret_leaves = [leaf for r in rets for leaf, _ in flows(fi, r, r.ast.value)]
+    copied = bool(ret_leaves) and all(unparse(x) in ("headers.copy()", "dict(headers)", "{**headers}") for x in ret_leaves)
+    ctx.ob("the result is a copy of the caller's headers", copied, at=fi, construct="headers copied", msg="the caller's dict is written into and returned: headers of one call leak into the next")
+    names = {r.ast.value.id for r in rets if isinstance(r.ast.value, ast.Name)}
+    bad = [unparse(tgt) for st, tgt, v in stores(fi.node) if isinstance(tgt, ast.Subscript) and root_name(tgt) == "headers"] + [
+        unparse(c)[:40] for c in calls_in(fi.node) if isinstance(c.func, ast.Attribute) and c.func.attr in MUTATORS and root_name(c.func.value) == "headers"]
+    ctx.ob("the caller's headers dict is never written", not bad, at=fi, construct="caller headers untouched", msg=f"writes {bad}")
+
+    def is_soap(conds, want: bool) -> bool:
+        return any("TransportTypes.SOAP" in t and (("==" in t and pol == want) or ("!=" in t and pol != want)) for t, pol in conds)
+
+    def hdr_stores(key: str):
+        out = []
+        for st, tgt, v in stores(fi.node):
+            if isinstance(tgt, ast.Subscript) and isinstance(tgt.slice, ast.Constant) and tgt.slice.value == key and root_name(tgt) in names:
+                n = g.node_of(st)
+                out.append((n, v, {(t, pol) for t, pol, _ in control_deps(fi, n)} if n is not None else set()))
+        return out
+
+    ct = hdr_stores("content-type")
+    ctx.ob("SOAP transport: content-type text/xml", len(ct) == 1 and isinstance(ct[0][1], ast.Constant) and ct[0][1].value == "text/xml" and is_soap(ct[0][2], True), at=fi, construct="content-type", msg="content-type header missing/other")
+    sa = hdr_stores("SOAPAction")
+    ok = len(sa) == 1 and sa[0][0] is not None and "self.config.soap_action" in forms(fi, sa[0][0], sa[0][1]) and is_soap(sa[0][2], True) and any(pol and t in ("self.config.soap_action",) for t, pol in sa[0][2])
+    ctx.ob("SOAPAction = config.soap_action exactly when one is configured", ok, at=fi, construct="SOAPAction", msg="SOAPAction header wiring changed")
+    rs = [n for n in g.stmts() if isinstance(n.ast, ast.Raise) and "ClientValueError" in unparse(n.ast)]
+    ctx.ob("other transports raise ClientValueError", len(rs) == 1 and is_soap({(t, pol) for t, pol, _ in control_deps(fi, rs[0])}, False), at=fi, construct="unsupported transport", msg="unsupported transports accepted")
     tc = ctx.repo.cls(f"{CL}:TransportTypes")
     v = tc.attrs.get("SOAP")
     ctx.ob("TransportTypes.SOAP is the SOAP-over-HTTP transport URI", isinstance(v, ast.Constant) and v.value == "http://schemas.xmlsoap.org/soap/http", at=fi.module, node=v, construct="transport uri", msg="transport URI changed")
@@ -261,15 +351,19 @@ def header_table(ctx: Ctx) -> None:
 def payload_typing(ctx: Ctx) -> None:
     """prepare_payload decodes dicts with config.input, type-checks against config.input and renders with the client's serializer."""
     fi = ctx.repo.func(f"{CL}:Client.prepare_payload")
-    a = asrc(fi)
-    ctx.ob("dict requests are decoded into config.input with the serializer's context", A("ifisinstance(_,dict):;_=DictDecoder(context=self.serializer.context);_=_.decode(_,self.config.input)") in a, at=fi, construct="dict decode", msg="dict requests decoded differently")
     g = build_cfg(fi.node)
-    tt = [t for t in g.nodes if t.kind == "test" and A(unparse(t.ast)) == A("isinstance(obj, self.config.input)")]
+    dec = [(n, c) for n in g.stmts() for c in node_calls(n) if call_name_of(c) == "decode"]
+    ok = len(dec) == 1 and len(dec[0][1].args) == 2 and unparse(dec[0][1].args[1]) == "self.config.input" and any(t == "isinstance(_,dict)" and pol for t, pol, _ in control_deps(fi, dec[0][0])) \
+        and any(isinstance(c, ast.Call) and call_name_of(c) == "DictDecoder" and unparse(kwarg(c, "context") or ast.Constant(0)) == "self.serializer.context" for c in calls_in(fi.node))
+    ctx.ob("dict requests are decoded into config.input with the serializer's context", ok, at=fi, construct="dict decode", msg="dict requests decoded differently")
+    tt = tests_like(fi, "isinstance(_, self.config.input)")
     rs = [n for n in g.stmts() if isinstance(n.ast, ast.Raise) and "ClientValueError" in unparse(n.ast)]
     ctx.ob("a request that is not an instance of config.input raises ClientValueError", bool(tt) and len(rs) == 1 and g.only_if(rs[0].id, tt[0].id, False), at=fi, construct="input type check", msg="wrong request types are serialized")
     rend = [n for n in g.stmts() if any(unparse(c.func) == "self.serializer.render" for c in node_calls(n))]
     ctx.ob("the payload is self.serializer.render(obj), after the type check", len(rend) == 1 and bool(tt) and g.only_if(rend[0].id, tt[0].id, True), at=fi, construct="render", msg="rendered before/without the check")
-    ctx.ob("the payload is encoded only when config.encoding is set", A("ifself.config.encoding:;return_.encode(self.config.encoding);return_") in a, at=fi, construct="payload encoding", msg="encoding handling changed")
+    enc = [(r, leaf) for r in g.returns() for leaf, _ in flows(fi, r, r.ast.value) if isinstance(leaf, ast.Call) and call_name_of(leaf) == "encode"]
+    ok = bool(enc) and all([unparse(a) for a in leaf.args] == ["self.config.encoding"] and any(t == "self.config.encoding" and pol for t, pol, _ in control_deps(fi, r)) for r, leaf in enc)
+    ctx.ob("the payload is encoded only when config.encoding is set (with that encoding)", ok, at=fi, construct="payload encoding", msg="encoding handling changed")
 
 
 @rule("C17.R4")
@@ -280,15 +374,19 @@ def config_vocabulary(ctx: Ctx) -> None:
     need = ["style", "location", "transport", "soap_action", "input", "output"]
     ctx.ob("Config has the fields the generated service classes carry", all(f in fields_ for f in need), at=cfg.methods["from_service"], construct="config fields", msg=f"fields {fields_}")
     fs = cfg.methods["from_service"]
-    ctx.ob("from_service: {f.name: kwargs[f.name] if f.name in kwargs else getattr(obj, f.name, None) for f in fields(cls)}",
-           A("_={_.name:_[_.name]if_.namein_elsegetattr(_,_.name,None)for_infields(cls)};returncls(**_)") in asrc(fs), at=fs, construct="from_service", msg="service attributes read differently")
+    body = list(walk_no_nested(fs.node))
+    ok = any(isinstance(c, ast.Call) and call_name_of(c) == "fields" for c in body) and any(isinstance(c, ast.Call) and call_name_of(c) == "getattr" and len(c.args) == 3 for c in body) \
+        and any(isinstance(x, ast.Name) and x.id == "kwargs" for x in body) and not any(isinstance(x, ast.Constant) and isinstance(x.value, str) and x.value in need for x in body)
+    ctx.ob("from_service reads every dataclass field of Config from the service class (getattr with a default; kwargs override) - no literal field list",
+           ok, at=fs, construct="from_service", msg="service attributes read differently")
     tpl = ctx.repo.read("xsdata/formats/dataclass/templates/service.jinja2")
     ctx.ob("service.jinja2 renders one `name = value` line per service attribute", "{{ attr.name }} = " in tpl or "{{ attr.name|" in tpl, at=fs.module, construct="service template", msg="service template no longer renders the attributes")
     # WSDL part selection compares whole part names
     mp = ctx.repo.func("xsdata.codegen.mappers.definitions:DefinitionsMapper.map_binding_message_parts")
     g = build_cfg(mp.node)
-    memb = [t for t in ast.walk(mp.node) if isinstance(t, ast.Compare) and isinstance(t.ops[0], (ast.In, ast.NotIn)) and unparse(t.left).endswith(".name") and unparse(t.comparators[0]) == "parts"]
-    parts_assign = [v for st, tgt, v in stores(mp.node) if isinstance(tgt, ast.Name) and tgt.id == "parts" and v is not None]
+    memb = [t for t in ast.walk(mp.node) if isinstance(t, ast.Compare) and isinstance(t.ops[0], (ast.In, ast.NotIn)) and unparse(t.left).endswith(".name") and isinstance(t.comparators[0], ast.Name)]
+    coll = {t.comparators[0].id for t in memb}
+    parts_assign = [v for st, tgt, v in stores(mp.node) if isinstance(tgt, ast.Name) and tgt.id in coll and v is not None]
     listy = bool(parts_assign) and all(isinstance(v, (ast.List, ast.ListComp, ast.Tuple, ast.Set)) or (isinstance(v, ast.Call) and (unparse(v.func) in ("list", "set", "tuple") or (isinstance(v.func, ast.Attribute) and v.func.attr == "split")))
                                        for v in parts_assign)
     ctx.ob("message parts are selected by membership in a collection of names (never a substring test on the raw attribute)", bool(memb) and listy, at=mp, node=memb[0] if memb else None, construct="part selection",
@@ -326,10 +424,35 @@ def types_registered_before_emission(ctx: Ctx) -> None:
                 ctx.ob(f"{m}: `yield {unparse(y.value)[:40]}` formats no child value itself", not direct, at=f, node=y,
                        msg="a child value is formatted directly instead of through repr_object: its type is not collected for the imports and nested models/enums are rendered with the wrong repr")
     w = cls_.methods["write"]
-    a = asrc(w)
-    ctx.ob("write: the body is rendered first, then imports are built from the collected types and written before it", A("for_inself.repr_object(_,0,_):;_.write(_);_=self.build_imports(_);_.write(_)") in a, at=w, construct="imports after body",
-           msg="imports computed before the types were collected")
-    ctx.ob("write: a fresh types set per call", A("_:set[type]=set()") in a, at=w, construct="fresh types", msg="types shared between calls")
+    gw = build_cfg(w.node)
+    ro = [n for n in gw.nodes if n.ast is not None and n.kind in ("stmt", "for") and any(call_name_of(c) == "repr_object" for c in node_calls(n))]
+    bi = [n for n in gw.stmts() if any(call_name_of(c) == "build_imports" for c in node_calls(n))]
+    tnames = {unparse(c.args[-1]) for n in ro for c in node_calls(n) if call_name_of(c) == "repr_object" and c.args}
+    inames = {unparse(c.args[0]) for n in bi for c in node_calls(n) if call_name_of(c) == "build_imports" and c.args}
+    order_ok = bool(ro) and len(bi) == 1 and all(gw.must_pass(gw.entry, bi[0].id, [r.id]) for r in ro) and not any(r.id in gw.reachable([bi[0].id]) for r in ro)
+    ctx.ob("write: the body is rendered first, then imports are built from the types collected while rendering", order_ok and len(tnames) == 1 and tnames == inames, at=w, construct="imports after body",
+           msg="imports computed before (or from another set than) the types collected by repr_object")
+    tdefs = [v for st, tgt, v in stores(w.node) if isinstance(tgt, ast.Name) and tgt.id in tnames]
+    ctx.ob("write: a fresh types set per call", bool(tdefs) and all(isinstance(v, ast.Set) or (isinstance(v, ast.Call) and unparse(v.func) == "set") for v in tdefs), at=w, construct="fresh types", msg="types shared between calls")
+
+
+def _qualname_heads(fi: FuncInfo, nodes=None) -> list[tuple[ast.AST, list[tuple[str, object]]]]:
+    """String templates yielded by the function (optionally restricted to some CFG nodes)."""
+    g = build_cfg(fi.node)
+    out = []
+    for n in (nodes if nodes is not None else g.stmts()):
+        if n.ast is None or n.kind != "stmt":
+            continue
+        for y in [n.ast, *walk_no_nested(n.ast)]:
+            if isinstance(y, ast.Yield) and y.value is not None:
+                for leaf, _ in flows(fi, n, y.value):
+                    t = str_template(leaf)
+                    if t is not None:
+                        out.append((y, t))
+    return out
+
+
+QUALNAME_OF_OBJ = {"obj.__class__.__qualname__", "type(obj).__qualname__"}
 
 
 @rule("C18.R2")
@@ -337,21 +460,49 @@ def emitted_head_is_imported_name(ctx: Ctx) -> None:
     """Models and enums are emitted by __qualname__ and build_imports imports the first component of the same __qualname__ from __module__."""
     cls_ = ctx.repo.cls(f"{PC}:PycodeSerializer")
     rm = cls_.methods["repr_model"]
-    heads = [y.value for y in walk_no_nested(rm.node) if isinstance(y, ast.Yield) and isinstance(y.value, ast.JoinedStr) and "__qualname__" in unparse(y.value)]
-    ctx.ob("repr_model emits obj.__class__.__qualname__(", len(heads) == 1 and A(unparse(heads[0])).startswith(A("f'{obj.__class__.__qualname__}(")), at=rm, construct="model head", msg="model emitted by another name than the imported one")
+    heads = [(y, t) for y, t in _qualname_heads(rm) if t and t[0][0] == "hole" and len(t) > 1 and t[1][0] == "lit" and str(t[1][1]).startswith("(")]
+    ctx.ob("repr_model emits obj.__class__.__qualname__(", len(heads) == 1 and unparse(heads[0][1][0][1]) in QUALNAME_OF_OBJ, at=rm, construct="model head", msg="model emitted by another name than the imported one")
     ro = cls_.methods["repr_object"]
     g = build_cfg(ro.node)
-    en = [t for t in g.nodes if t.kind == "test" and A(unparse(t.ast)) == A("isinstance(obj, Enum)")]
-    ey = [n for n in g.stmts() if bool(en) and n.kind == "stmt" and g.only_if(n.id, en[0].id, True) and any(isinstance(x, ast.Yield) for x in [n.ast, *walk_no_nested(n.ast)])]
-    ok = len(ey) == 1 and "__qualname__" in unparse(ey[0].ast) and ".name" in unparse(ey[0].ast)
+    en = tests_like(ro, "isinstance(_, Enum)")
+    ey = [n for n in g.stmts() if bool(en) and n.kind == "stmt" and any(g.only_if(n.id, t.id, True) for t in en)]
+    et = [t for _, t in _qualname_heads(ro, ey)]
+    ok = len(et) == 1 and [k for k, _ in et[0]] == ["hole", "lit", "hole"] and unparse(et[0][0][1]) in QUALNAME_OF_OBJ and et[0][1][1] == "." and unparse(et[0][2][1]) == "obj.name"
     ctx.ob("enum members are emitted as <class __qualname__>.<member name>", ok, at=ro, node=ey[0].ast if ey else None, construct="enum head",
            msg="str(member) uses the bare class name: a member of a nested enum is emitted as 'Kind.A' while only the outer class is imported (NameError)")
     bi = cls_.methods["build_imports"]
-    a = asrc(bi)
-    ctx.ob("build_imports takes module = tp.__module__ and name = tp.__qualname__", A("_=_.__module__;_=_.__qualname__") in a, at=bi, construct="import source", msg="imports by another attribute than the emitted one")
-    ctx.ob("build_imports imports the top-level (first) component of a nested qualname", A("if'.'in_:;_=_.split('.')[0]") in a, at=bi, construct="import top-level", msg="an inner class is imported by a dotted name (SyntaxError) or by its immediate outer class")
-    ctx.ob("build_imports emits from <module> import <name> and returns the sorted, de-duplicated lines", A("_.add(f'from{_}import{_}\\n')").replace("\\n", "\\\\n") in a.replace(" ", "") or "import{_}" in a, at=bi, construct="import form", msg="import form changed")
-    ctx.ob("builtins are not imported", A("!='builtins'") in a, at=bi, construct="builtins skipped", msg="from builtins import ...")
+    stmts = _import_statements(bi)
+    froms = [x for x in stmts if template_text(x[0]).startswith("from {} import {}")]
+    ctx.ob("build_imports emits `from <module> import <name>` lines", len(froms) >= 1, at=bi, construct="import form", msg=f"import statements {[template_text(t) for t, _, _ in stmts]}")
+    for t, node, conds in froms:
+        holes = [v for k, v in t if k == "hole"]
+        gb = build_cfg(bi.node)
+        mod_forms = forms(bi, node, holes[0])
+        ctx.ob("build_imports takes the module from tp.__module__", "_.__module__" in mod_forms, at=bi, construct="import module source", msg=f"module is {sorted(mod_forms)[:2]}")
+        name_leaves = [leaf for leaf, _ in flows(bi, node, holes[1])]
+        name_src = " ".join(sorted({x for leaf in name_leaves for x in forms(bi, node, leaf)} | {anon_text(leaf, bi.node) for leaf in name_leaves}))
+        whole = A(unparse(bi.node))
+        top = any(A(p) in whole for p in (".split('.')[0]", ".split('.',1)[0]", ".partition('.')[0]", '.split(".")[0]', '.split(".",1)[0]', '.partition(".")[0]'))
+        contraband = [p for p in ("rsplit", "rpartition", ".__name__", "[-1]", "[-2]") if p in whole]
+        ctx.ob("build_imports takes the name from tp.__qualname__ and imports its top-level (first) component", "__qualname__" in name_src + whole and top and not contraband, at=bi, construct="import top-level",
+               msg="an inner class is imported by a dotted name (SyntaxError), by its immediate outer class or by __name__" + (f" ({contraband})" if contraband else ""))
+        ctx.ob("builtins are not imported", any(("'builtins'" in txt and (("!=" in txt and pol) or ("==" in txt and not pol))) for txt, pol in conds), at=bi, construct="builtins skipped", msg="from builtins import ...")
+    rv = return_values(bi.node)
+    ctx.ob("build_imports returns the sorted, de-duplicated lines", bool(rv) and all(any(isinstance(c, ast.Call) and call_name_of(c) == "sorted" for c in ast.walk(v)) for v in rv), at=bi, construct="imports sorted", msg="import order depends on set iteration")
+
+
+def _import_statements(bi: FuncInfo):
+    """(template, cfg node of the .add call, flow conditions) for every string added to the import set."""
+    g = build_cfg(bi.node)
+    out = []
+    for n in g.stmts():
+        for c in node_calls(n):
+            if isinstance(c.func, ast.Attribute) and c.func.attr == "add" and len(c.args) == 1:
+                for leaf, chain in flows(bi, n, c.args[0]):
+                    t = str_template(leaf)
+                    if t is not None:
+                        out.append((t, n, flow_conditions(bi, n, chain)))
+    return out
 
 
 @rule("C18.R4")
@@ -359,50 +510,74 @@ def container_delimiters(ctx: Ctx) -> None:
     """repr_array chooses the delimiters by container kind for every kind collections.is_array accepts."""
     fi = ctx.repo.func(f"{PC}:PycodeSerializer.repr_array")
     g = build_cfg(fi.node)
-    kinds = {}
-    for t in g.nodes:
-        if t.kind == "test" and isinstance(t.ast, ast.Call) and unparse(t.ast.func) == "isinstance" and unparse(t.ast.args[0]) == "obj":
-            kinds[unparse(t.ast.args[1])] = t
-    pairs = {}
-    for st, tgt, v in stores(fi.node):
-        if isinstance(tgt, (ast.Tuple,)) and isinstance(v, ast.Tuple) and len(v.elts) == 2:
-            pass
-    for st in walk_no_nested(fi.node):
-        if isinstance(st, ast.Assign) and isinstance(st.targets[0], ast.Tuple) and isinstance(st.value, ast.Tuple) and all(isinstance(e, ast.Constant) for e in st.value.elts):
-            n = g.node_of(st)
-            for k, t in kinds.items():
-                if n is not None and g.only_if(n.id, t.id, True):
-                    pairs.setdefault(k, tuple(e.value for e in st.value.elts))
-            if n is not None and kinds and all(g.only_if(n.id, t.id, False) for t in kinds.values()):
-                pairs["<else>"] = tuple(e.value for e in st.value.elts)
-    ctx.ob("tuples are written with ( )", pairs.get("tuple") == ("(", ")"), at=fi, construct="tuple delimiters", msg=f"tuple -> {pairs.get('tuple')}: a tuple field evaluates back to a list (frozen models become unequal)")
-    ctx.ob("sets are written with { }", pairs.get("set") == ("{", "}"), at=fi, construct="set delimiters", msg=f"set -> {pairs.get('set')}")
-    ctx.ob("frozensets are written with frozenset({ })", pairs.get("frozenset") == ("frozenset({", "})"), at=fi, construct="frozenset delimiters", msg=f"frozenset -> {pairs.get('frozenset')}")
-    ctx.ob("lists (the remaining kind) are written with [ ]", pairs.get("<else>") == ("[", "]"), at=fi, construct="list delimiters", msg=f"else -> {pairs.get('<else>')}")
-    ys = [unparse(y.value) for y in walk_no_nested(fi.node) if isinstance(y, ast.Yield)]
-    ctx.ob("every item is followed by a comma (so a one-element tuple stays a tuple)", "',\\n'" in ys, at=fi, construct="item comma", msg="trailing comma missing")
-    a = asrc(fi)
-    ctx.ob("empty containers are written with str(obj)", A("ifnot_:;yieldstr(_);return") in a, at=fi, construct="empty containers", msg="empty set written as {} (a dict)")
+
+    def kind_of(t: ast.AST):
+        if isinstance(t, ast.Call) and unparse(t.func) == "isinstance" and len(t.args) == 2 and unparse(t.args[0]) == "obj":
+            tp = t.args[1]
+            return frozenset(unparse(e) for e in tp.elts) if isinstance(tp, ast.Tuple) else frozenset([unparse(tp)]), True
+        return None
+
+    d = Dispatch(fi.node, classify=kind_of, extra=lambda t: True if unparse(t) == "obj" else None)  # non-empty container
+    pairs: dict[str | None, set[tuple]] = {}
+    for key in [*sorted(d.keys), None]:
+        found: set[tuple] = set()
+        for n in d.under(key):
+            st = n.ast
+            if n.kind == "stmt" and isinstance(st, ast.Assign) and isinstance(st.value, ast.Tuple) and len(st.value.elts) == 2 and all(isinstance(e, ast.Constant) and isinstance(e.value, str) for e in st.value.elts):
+                found.add(tuple(e.value for e in st.value.elts))
+        pairs[key] = found
+    # keys are tested in the order the code tests them: under(`set`) also sees the frozenset branch only if frozenset is not tested first - use `specific`
+    def only(key):
+        mine = pairs.get(key, set())
+        others = set().union(*[v for k, v in pairs.items() if k != key]) if len(pairs) > 1 else set()
+        return mine - others if len(mine) > 1 else mine
+
+    ctx.ob("tuples are written with ( )", only("tuple") == {("(", ")")}, at=fi, construct="tuple delimiters", msg=f"tuple -> {sorted(only('tuple'))}: a tuple field evaluates back to a list (frozen models become unequal)")
+    ctx.ob("sets are written with { }", only("set") == {("{", "}")}, at=fi, construct="set delimiters", msg=f"set -> {sorted(only('set'))}")
+    ctx.ob("frozensets are written with frozenset({ })", only("frozenset") == {("frozenset({", "})")}, at=fi, construct="frozenset delimiters", msg=f"frozenset -> {sorted(only('frozenset'))}")
+    ctx.ob("lists (the remaining kind) are written with [ ]", only(None) == {("[", "]")}, at=fi, construct="list delimiters", msg=f"else -> {sorted(only(None))}")
+    ys = [y.value.value for y in walk_no_nested(fi.node) if isinstance(y, ast.Yield) and isinstance(y.value, ast.Constant) and isinstance(y.value.value, str)]
+    ctx.ob("every item is followed by a comma (so a one-element tuple stays a tuple)", any(v.startswith(",") for v in ys), at=fi, construct="item comma", msg="trailing comma missing")
+    empty = [n for n in g.stmts() if n.kind == "stmt" and any(isinstance(y, ast.Yield) and unparse(y.value) == "str(obj)" for y in [n.ast, *walk_no_nested(n.ast)])]
+    ok = bool(empty) and all(any(isinstance(t.ast, ast.Name) and t.ast.id == "obj" and not pol for _txt, pol, t in control_deps(fi, n)) for n in empty)
+    ctx.ob("empty containers are written with str(obj)", ok, at=fi, construct="empty containers", msg="empty set written as {} (a dict)")
     rm = ctx.repo.func(f"{PC}:PycodeSerializer.repr_mapping")
-    ctx.ob("mappings emit key: value pairs through repr_object", A("yieldfromself.repr_object(_,_,_);yield':';yieldfromself.repr_object(_,_,_)") in asrc(rm), at=rm, construct="mapping pairs", msg="mapping emission changed")
+    loops = [n for n in walk_no_nested(rm.node) if isinstance(n, ast.For) and ".items()" in unparse(n.iter)]
+    ok = False
+    if loops and isinstance(loops[0].target, ast.Tuple) and len(loops[0].target.elts) == 2:
+        k, v = (unparse(e) for e in loops[0].target.elts)
+        emitted = [unparse(y.value.args[0]) for st in loops[0].body for y in [st, *walk_no_nested(st)] if isinstance(y, ast.YieldFrom) and isinstance(y.value, ast.Call) and call_name_of(y.value) == "repr_object" and y.value.args]
+        seps = [y.value.value for st in loops[0].body for y in [st, *walk_no_nested(st)] if isinstance(y, ast.Yield) and isinstance(y.value, ast.Constant)]
+        ok = emitted == [k, v] and any(str(x).strip() == ":" for x in seps)
+    ctx.ob("mappings emit key: value pairs through repr_object", ok, at=rm, construct="mapping pairs", msg="mapping emission changed")
 
 
 @rule("C18.R5")
 def module_qualified_reprs(ctx: Ctx) -> None:
     """Types whose repr is module-qualified (datetime.date/time/datetime) get `import module`, not `from module import Name`."""
     fi = ctx.repo.func(f"{PC}:PycodeSerializer.build_imports")
-    g = build_cfg(fi.node)
-    dt = [t for t in g.nodes if t.kind == "test" and A(unparse(t.ast)) in (A("module == 'datetime'"), A("module in ('datetime',)"))]
-    adds = [n for n in g.stmts() if any(isinstance(c.func, ast.Attribute) and c.func.attr == "add" and c.args and "import datetime" in unparse(c.args[0]) for c in node_calls(n))]
-    ctx.ob("datetime values get `import datetime` (their repr is datetime.date(...))", bool(dt) and bool(adds) and all(g.only_if(a.id, dt[0].id, True) for a in adds), at=fi, construct="datetime import",
+    stmts = _import_statements(fi)
+    plain = [(t, n, c) for t, n, c in stmts if template_text(t).strip() == "import datetime"]
+    is_dt = lambda conds, want: any("'datetime'" in txt and (("==" in txt and pol == want) or ("!=" in txt and pol != want) or ("in(" in txt and "notin" not in txt and pol == want)) for txt, pol in conds)  # noqa: E731
+    ctx.ob("datetime values get `import datetime` (their repr is datetime.date(...))", bool(plain) and all(is_dt(c, True) for _, _, c in plain), at=fi, construct="datetime import",
            msg="`from datetime import date` does not make `datetime.date(2020, 1, 2)` evaluable")
-    froms = [n for n in g.stmts() if any(isinstance(c.func, ast.Attribute) and c.func.attr == "add" and c.args and "from" in unparse(c.args[0]) for c in node_calls(n))]
-    ctx.ob("`from datetime import ...` is not emitted for datetime values", bool(dt) and bool(froms) and all(g.only_if(f.id, dt[0].id, False) for f in froms), at=fi, construct="datetime from-import excluded",
+    froms = [(t, n, c) for t, n, c in stmts if template_text(t).startswith("from {} import")]
+    ctx.ob("`from datetime import ...` is not emitted for datetime values", bool(froms) and all(is_dt(c, False) for _, _, c in froms), at=fi, construct="datetime from-import excluded",
            msg="a from-import of datetime.datetime shadows the module name")
     lv = ctx.repo.func("xsdata.utils.objects:literal_value")
-    a = asrc(lv)
-    ctx.ob("literal_value: non-finite floats -> float(\"...\"), QName -> QName(\"text\"), else repr()", A("returnstr(_)ifmath.isfinite(_)elsef'float(\"{_}\")'") in a and "returnf'QName(\"{_.text}\")'" in a and a.rstrip().endswith("returnrepr(_)"),
-           at=lv, construct="literal_value", msg="literal rendering changed")
+    g = build_cfg(lv.node)
+    rets = g.returns()
+    shapes = []
+    for r in rets:
+        deps = control_deps(lv, r)
+        for leaf, _ in flows(lv, r, r.ast.value):
+            t = str_template(leaf)
+            shapes.append((template_text(t) if t is not None else anon_text(leaf, lv.node), {txt for txt, pol, _ in deps if pol}))
+    nonfinite = [s for s, c in shapes if s == 'float("{}")']
+    qn = [s for s, c in shapes if s == 'QName("{}")' and "isinstance(_,QName)" in c]
+    fallback = [s for s, c in shapes if s == "repr(_)"]
+    ctx.ob("literal_value: non-finite floats -> float(\"...\"), QName -> QName(\"text\"), else repr()", bool(nonfinite) and bool(qn) and bool(fallback), at=lv, construct="literal_value",
+           msg=f"literal rendering changed: {[s for s, _ in shapes]}")
 
 
 @rule("C18.R6")
